@@ -6,6 +6,7 @@ import (
 
 	"pgregory.net/rapid"
 
+	"github.com/bytom/bytom/protocol/bc/types"
 	"github.com/bytom/bytom/protocol/casper"
 	"github.com/bytom/bytom/protocol/state"
 
@@ -34,6 +35,7 @@ type evGenOpt struct {
 	Early     bool // verification messages for checkpoints the node does not know yet (cached, replayed by the node later)
 	BadVotes  bool
 	Restarts  bool
+	Copies    bool // a stored checkpoint block is delivered again with forged signatures in its header
 	MaxEvents int
 }
 
@@ -83,6 +85,8 @@ func evGen(opt evGenOpt) func(t *rapid.T) evCase {
 				c.Events = append(c.Events, e)
 			case opt.Restarts && k == 9 && rapid.IntRange(0, 2).Draw(t, "rq") == 0:
 				c.Events = append(c.Events, ev{K: "r"})
+			case opt.Copies && k == 4 && delivered > 0 && rapid.IntRange(0, 1).Draw(t, "cq") == 0:
+				c.Events = append(c.Events, ev{K: "c", A: rapid.IntRange(0, 8).Draw(t, "ctgt"), B: rapid.IntRange(0, 1).Draw(t, "csrc"), C: rapid.IntRange(1, 1023).Draw(t, "cbits"), D: rapid.IntRange(0, 2).Draw(t, "ckind")})
 			default:
 				e := ev{K: "b"}
 				if rapid.IntRange(0, 4).Draw(t, "oq") == 0 {
@@ -112,6 +116,7 @@ type hist struct {
 	delivered map[int]bool
 	votes     []voteRec
 	restarts  int
+	copies    int
 	early     int // verification bursts sent for a target the node did not know
 	desc      []string
 	ffg       *ffgModel
@@ -290,6 +295,50 @@ func (h *hist) step(e ev) (string, error) {
 			return "", err
 		}
 		return "restart", nil
+	case "c":
+		// a copy of a stored checkpoint block whose header carries forged signatures (the block hash does not cover them)
+		cps := h.knownCheckpoints()
+		if len(cps) == 0 {
+			h.trace = append(h.trace, resolvedEv{K: "noop"})
+			return "noop", nil
+		}
+		tgt := cps[abs(e.A)%len(cps)]
+		src := h.w.CheckpointBack(tgt, 1+abs(e.B)%2)
+		vals := h.w.ValidatorsFor(tgt)
+		sh, th := h.w.Hash(src), h.w.Hash(tgt)
+		cp := ck.CloneBlock(h.w.Blocks[tgt].Block)
+		cp.SupLinks = types.SupLinks{}
+		forged := 0
+		for slot := 0; slot < len(vals); slot++ {
+			if e.C&(1<<uint(slot)) == 0 {
+				continue
+			}
+			var sig []byte
+			switch abs(e.D) % 3 {
+			case 0:
+				sig = make([]byte, 64)
+				for i := range sig {
+					sig[i] = byte(i*11 + slot + 1)
+				}
+			case 1:
+				sig = ck.Key(ck.KeyIndex(vals[slot])).Sign(ck.VoteMessage(th, sh))
+			default:
+				sig = ck.OutsiderKey().Sign(ck.VoteMessage(sh, th))
+			}
+			cp.SupLinks.AddSupLink(h.w.Blocks[src].Block.Height, sh, sig, slot)
+			forged++
+		}
+		h.trace = append(h.trace, resolvedEv{K: "noop"})
+		var perr error
+		_, hung, dump := callWithWatchdog(callLimit, func() error { _, perr = h.n.Chain.ProcessBlock(cp); return nil })
+		if hung {
+			return "", hangError(fmt.Sprintf("ProcessBlock(copy of block #%d)", tgt), dump)
+		}
+		h.copies++
+		if err := h.settle("the copy of a stored block"); err != nil {
+			return "", err
+		}
+		return fmt.Sprintf("copy of block #%d with %d forged signatures (kind %d) on #%d->#%d -> %v", tgt, forged, abs(e.D)%3, src, tgt, perr), nil
 	}
 	h.trace = append(h.trace, resolvedEv{K: "noop"})
 	return "noop", nil
